@@ -278,34 +278,37 @@ static void run_opts(const Case& c) {
 
 // fpiter <id> <n> <dt> <fptype> <steps> <every> ; extra = e1 qmin qmax pmin pmax ; data (1 bunch)
 // iterates FokkerPlanckMap::apply (A: g1->g2, B: g2->g1) and prints the energy moments of the grid
-static void fp_moments(const PhaseSpace& ps, uint32_t n, uint32_t step) {
-    double m0 = 0, m1 = 0, m2 = 0;
+static void fp_moments(const PhaseSpace& ps, uint32_t n, uint32_t step, uint32_t nb = 1) {
     const float* d = ps.getData();
-    for (uint32_t x = 0; x < n; x++) for (uint32_t y = 0; y < n; y++) {
-        double p = ps.p(y), v = d[x * n + y];
-        m0 += v; m1 += v * p; m2 += v * p * p;
+    for (uint32_t b = 0; b < nb; b++) {
+        double m0 = 0, m1 = 0, m2 = 0;
+        for (uint32_t x = 0; x < n; x++) for (uint32_t y = 0; y < n; y++) {
+            double p = ps.p(y), v = d[(static_cast<size_t>(b) * n + x) * n + y];
+            m0 += v; m1 += v * p; m2 += v * p * p;
+        }
+        std::cout << "vals " << hx(static_cast<float>(step)) << ' ' << hx(static_cast<float>(m0)) << ' '
+                  << hx(static_cast<float>(m1)) << ' ' << hx(static_cast<float>(m2)) << '\n';
     }
-    std::cout << "vals " << hx(static_cast<float>(step)) << ' ' << hx(static_cast<float>(m0)) << ' '
-              << hx(static_cast<float>(m1)) << ' ' << hx(static_cast<float>(m2)) << '\n';
 }
 static void run_fpiter(const Case& c) {
     uint32_t n = std::stoul(c.head[2]), dt = std::stoul(c.head[3]), fpt = std::stoul(c.head[4]);
     uint32_t steps = std::stoul(c.head[5]), every = std::stoul(c.head[6]);
+    uint32_t nb = c.head.size() > 7 ? std::stoul(c.head[7]) : 1;   // one `vals` line per bunch at every printed step
     float e1 = c.extra[0];
-    PhaseSpace::resetSize(n, 1);
-    auto g1 = mkps(n, 1, c.data.data(), c.extra[1], c.extra[2], c.extra[3], c.extra[4]);
-    auto g2 = mkps(n, 1, nullptr, c.extra[1], c.extra[2], c.extra[3], c.extra[4]);
+    PhaseSpace::resetSize(n, nb);
+    auto g1 = mkps(n, nb, c.data.data(), c.extra[1], c.extra[2], c.extra[3], c.extra[4]);
+    auto g2 = mkps(n, nb, nullptr, c.extra[1], c.extra[2], c.extra[3], c.extra[4]);
     FokkerPlanckMap A(g1, g2, n, n, static_cast<FokkerPlanckMap::FPType>(fpt), FokkerPlanckMap::FPTracking::none, e1,
                       static_cast<FokkerPlanckMap::DerivationType>(dt), nullptr);
     FokkerPlanckMap B(g2, g1, n, n, static_cast<FokkerPlanckMap::FPType>(fpt), FokkerPlanckMap::FPTracking::none, e1,
                       static_cast<FokkerPlanckMap::DerivationType>(dt), nullptr);
     std::cout << "case " << c.id << '\n';
-    fp_moments(*g1, n, 0);
+    fp_moments(*g1, n, 0, nb);
     for (uint32_t k = 1; k <= steps; k++) {
         if (k % 2 == 1) A.apply(); else B.apply();
-        if (k % every == 0 || k == steps) fp_moments((k % 2 == 1) ? *g2 : *g1, n, k);
+        if (k % every == 0 || k == steps) fp_moments((k % 2 == 1) ? *g2 : *g1, n, k, nb);
     }
-    print_data("out", ((steps % 2 == 1) ? g2 : g1)->getData(), static_cast<size_t>(n) * n);
+    print_data("out", ((steps % 2 == 1) ? g2 : g1)->getData(), static_cast<size_t>(nb) * n * n);
 }
 
 // dynrf <id> <n> <it> <nb> <lin|sin> <steps> ; extra = qmin qmax pmin pmax qscale pscale angle f_RF revpart V_RF V0
